@@ -46,7 +46,7 @@ def run(rep, tier, seed):
         toks = sorted(set(must + rest[:24]))
     with tlc.Scratch() as s:
         consts = dict(ValsX=set(toks), ValsS=set(small()), Pres={1, 2})
-        invs = ['PresentationIndependent', 'UncapturedIgnored', 'AliasInKey']
+        invs = ['PresentationIndependent', 'UncapturedIgnored', 'AliasInKey', 'NoKeyIffUnbuildable']
         mc.write_mc(s, 'InputKey', 'MC_C06', consts, invariants=invs)
         r, g = tlc.dump_graph(s, 'MC_C06', 'MC_C06.cfg', max_states=3000000, timeout=3000)
         rep.add_tlc('InputKey universe (%d value tokens)' % len(toks), r, obligations=invs)
@@ -101,7 +101,12 @@ def run(rep, tier, seed):
             by_spec.setdefault(spec[i], set()).add(keys[i])
             by_real.setdefault(keys[i], set()).add(spec[i])
         for i in range(n):
-            if 'NOKEY' in keys[i]:
+            unbuildable = states[i]['key'][0] == 'nokey'
+            if unbuildable and keys[i] != fn_of[i] + 'NOKEY:[]':
+                rep.violation({'summary': '[%s] call %r omits a positionally captured argument, no key can be built for it, yet '
+                                          'the recording holds %s' % (pname, calls[i], keys[i]), 'signature': None},
+                              replay={'kind': 'call', 'call': calls[i]})
+            elif not unbuildable and 'NOKEY' in keys[i]:
                 rep.violation({'summary': '[%s] call %r produced no single input key: %s' % (pname, calls[i], keys[i]), 'signature': None},
                               replay={'kind': 'call', 'call': calls[i]})
         for sk, ks in by_spec.items():
